@@ -213,6 +213,7 @@ def gen_C01(rng, tier):
     out += payload_marker_battery(["read_all s=U e=U"])
     out += mixed_session_battery(rng, ["read_all s=U e=U"])
     out += reader_buffer_end_battery(tier, ["read_all s=U e=U"])
+    out += payload_sweep_battery(["read_all s=U e=U"])
     # directed: sparse series spanning several read buffers, so that consecutive
     # 16 KiB boundaries split sections (every payload class)
     for p in ([0, 1, 2, 3, 4, 8] if tier == "quick" else [0, 1, 2, 3, 4, 5, 8, 16, 200]):
@@ -487,6 +488,7 @@ def gen_C15(rng, tier):
     # rebuild misses makes the next append open a section too many)
     out += [x for x in gen_C06(random.Random(rng.randrange(1 << 30)), tier) if x[0].startswith("big")]
     out += chunk_end_battery(tier)
+    out += payload_sweep_battery(["files"])
     for h0 in _histories(rng, tier, PAYLOADS_SMALL + [16]):
         h = Hist(h0.p, hdr=h0.hdr)
         h.new()
@@ -752,6 +754,27 @@ def reader_buffer_end_battery(tier, ops_after):
                 h.op("close")
             if marker_free(p, [1000, 1000 + 2 * cl + 100000 + cl + 40]):
                 out.append((f"reader-buffer-end-p{p}-b{nb}", h.script()))
+    return out
+
+
+def payload_sweep_battery(ops_after):
+    """EVERY payload size from 0 to 300 and a few larger ones (a bug tied to one particular size, or
+    to a residue of the size modulo some block length, needs exactly that size): two sections, reopen"""
+    out = []
+    sizes = list(range(0, 301)) + [511, 512, 513, 1023, 1024, 1027, 1028, 1029, 4099, 4100, 16382, 16383, 16384, 16385]
+    for p in sizes:
+        h = Hist(p)
+        h.new()
+        pl1 = bytes((i * 5 + p) % 251 for i in range(p))
+        h.push(1700000000, pl=pl1)
+        h.push(1700000007, pl=bytes(reversed(pl1)))
+        h.push(1700000007 + MAXD + 9, pl=pl1)
+        for o in ops_after:
+            h.op(o)
+        h.reopen()
+        for o in ops_after:
+            h.op(o)
+        out.append((f"payload-sweep-{p}", h.script()))
     return out
 
 
@@ -1128,6 +1151,9 @@ def gen_C06(rng, tier):
         out.append((f"big-p{p}", h.script()))
     out += window_sweep_battery(tier, [8, 4] if tier == "quick" else [8, 4, 5, 16, 0, 2])
     out += chunk_end_battery(tier)
+    # the sidecar index of a CACHE is an index too: emptied and refilled caches, several opens in a row
+    out += [(n, s + "open p=any hdr=any caches=" + n.split("-B")[1].split("-")[0] + " cb=none ext=0\nfiles\nclose\n")
+            for n, s in emptied_cache_battery(tier) + stale_bucket_battery(tier)]
     for h0 in _histories(rng, tier, PAYLOADS_SMALL + [16]):
         h = Hist(h0.p, hdr=h0.hdr)
         h.new()
@@ -1250,6 +1276,7 @@ def gen_C08(rng, tier):
 def gen_C09(rng, tier):
     out = [x for x in error_path_battery(tier) if x[0].startswith("cache-header")]
     out += stale_bucket_battery(tier)
+    out += emptied_cache_battery(tier)
     for B in [1, 2, 3, 4, 10]:
         for p in ([0, 4] if tier == "quick" else [0, 1, 2, 3, 4, 8]):
             h = Hist(p, caches=[B])
@@ -1318,6 +1345,8 @@ def gen_C09(rng, tier):
             h.op(f"cut data {total - k * h.ls}")
             h.open()
             h.op("read_all s=U e=U")
+            h.op("read_n n=2 s=U e=U")          # right after the open: the cache may just have been emptied
+            h.op("read_n n=1 s=I:0 e=U")
             # keep appending: the lines the straddling bucket already accounts for are skipped
             # (`lines_to_skip`), later buckets must line up again
             h.op(f"pushrun ts0={h.last() + 5} step=3 count={2 * B + 1} seed={k}")
@@ -1424,6 +1453,9 @@ def gen_C11(rng, tier):
 
 def gen_C16(rng, tier):
     out = marker_word_battery(["read_all s=U e=U", "len"])
+    # opens that repair or recreate a cache must leave the series' own files alone
+    out += [x for x in error_path_battery(tier) if x[0].startswith("cache-header")]
+    out += [(n, s.replace("files\n", "files\nread_all s=U e=U\nlen\n")) for n, s in emptied_cache_battery(tier)[:4]]
     reads = ["read_all s=U e=U", "len", "range", "last_line", "is_empty", "payload_size", "n_lines s=U e=U",
              "read_first_n n=2 s=U e=U", "read_n n=3 s=U e=U", "page n=2"]
     for h0 in _histories(rng, tier, PAYLOADS_SMALL):
@@ -1533,6 +1565,34 @@ def assets_battery(tier):
                     "read_n n=50 s=U e=U", "close",
                     "open p=any hdr=any caches=- cb=none ext=0", "len", "read_first_n n=3 s=U e=U", "close"]
             out.append((f"asset-{os.path.basename(f)}-{v}", "\n".join(ops) + "\n"))
+    return out
+
+
+def emptied_cache_battery(tier):
+    """the source is torn back to fewer lines than one bucket (or to nothing) while the cache holds whole
+    buckets: the cache is emptied on open; resampling reads right after that, and after each further
+    append until the first bucket is complete again, must work"""
+    out = []
+    for p in ([4, 0] if tier == "quick" else [0, 1, 4, 8]):
+        for B, n, keep in [(10, 25, 5), (10, 25, 0), (4, 9, 3), (3, 7, 1), (2, 5, 0)]:
+            h = Hist(p, caches=[B])
+            h.new()
+            h.pushrun(1000, 5, n, 3)
+            H = header_len(p, 0)
+            h.op("close")
+            cut = H + (h.ms + keep * h.ls if keep else 0)
+            h.op(f"cut data {cut}")
+            h.open()
+            for _ in range(B + 1):
+                h.op("read_n n=2 s=U e=U")
+                h.op("read_n n=1 s=I:1000 e=I:2000")
+                h.op("len")
+                h.op(f"push ts={1000 + 5 * n + 7 * (_ + 1)} pl={hexs(bytes([5] * p))}")
+            h.op("files")
+            h.reopen()
+            h.op("read_n n=2 s=U e=U")
+            h.op("files")
+            out.append((f"emptied-cache-p{p}-B{B}-keep{keep}", h.script()))
     return out
 
 
@@ -1847,7 +1907,23 @@ def gen_C19(rng, tier):
     out += text_header_battery(tier)      # builder options: demanded vs stored text headers
     out += error_path_battery(tier)
     out += stale_bucket_battery(tier)
+    out += emptied_cache_battery(tier)
     out += reader_buffer_end_battery(tier, ["read_all s=U e=U", "read_first_n n=100000 s=E:1050 e=U"])
+    # both bounds of a resampling read inside one time gap of a CACHE (whose lines are bucket means)
+    for p in (4, 0):
+        for tss, (a, b) in [([0, 60000, 120000, 180000], (100000, 130000)), ([0, 1, 100000, 100001], (70000, 80000)),
+                            ([5, 6, 7, 8, 200000, 200001, 400000, 400001], (100, 199999))]:
+            h = Hist(p, caches=[2])
+            h.new()
+            for t in tss:
+                h.push(t, pl=bytes([3] * p))
+            for kinds in (("I", "I"), ("E", "E"), ("I", "E")):
+                for n in (1, 2, 5):
+                    h.op(f"read_n n={n} s={kinds[0]}:{a} e={kinds[1]}:{b}")
+            h.reopen()
+            h.op(f"read_n n=1 s=I:{a} e=I:{b}")
+            h.op(f"read_n n=1 s=E:{a} e=E:{b}")
+            out.append((f"cache-gap-range-p{p}", h.script()))
     # bucket sizes at the far end of usize
     for caches in ([U64], [1 << 63], [3, U64], [(1 << 32) + 1]):
         h = Hist(4, caches=caches)
